@@ -15,7 +15,7 @@
    0 < next id, the document has the initial view.  That the XMI reader succeeds is a hypothesis as in C01.
    The statements of the first build that take inline_outline_at as a premise are kept (suffix _partial). *)
 From Cassis Require Import Base Heap Schema Canon Reach JsonDoc Json JsonProofs JsonLoadProofs CorrC02 Convert ConvertWf ConvertInline ConvertProofs.
-From Cassis Require Lex Xmi XmiDoc XmiLoad XmiRt XmiExample.
+From Cassis Require Lex Xmi XmiDoc XmiLoad XmiRt XmiRtTotal XmiExample.
 From Cassis.Props Require C02.
 Open Scope Z_scope.
 
@@ -67,6 +67,18 @@ Theorem C16_json_xmi_json : forall L s (fmt_flt : flt -> string) (parse_flt : st
 Proof. exact json_xmi_json. Qed.
 Print Assumptions C16_json_xmi_json.
 
+(* ... and the XMI reader does load the document when, in addition, every structure of a type with the feature sofa holds
+   a sofa (wf_rt_totalb; what Cas.add guarantees): C01_xmi_roundtrip instead of C01_xmi_roundtrip_if_loaded *)
+Theorem C16_json_xmi_json_total : forall L s (fmt_flt : flt -> string) (parse_flt : string -> option flt) j0 c1 jv x c1',
+  (forall f, parse_flt (fmt_flt f) = Some f) -> (forall f, Lex.tok_ok (fmt_flt f)) ->
+  denote_json L s j0 = Ok jv -> canon_json s c1 = Ok jv ->
+  wf_convb s c1 = true -> XmiRtTotal.wf_rt_totalb s c1 = true ->
+  Xmi.save_xmi fmt_flt s c1 = Ok (x, c1') ->
+  exists c2, XmiLoad.load_xmi parse_flt s false x = Ok c2 /\
+             XmiLoad.canon_loaded s c2 = (do v <- inline_of s jv ;; Ok (XmiDoc.norm_xmi s v)).
+Proof. exact json_xmi_json_total. Qed.
+Print Assumptions C16_json_xmi_json_total.
+
 (* the same leg over the declarative reading of the XMI document *)
 Theorem C16_json_xmi_json_denote : forall L s (fmt_flt : flt -> string) (parse_flt : string -> option flt) j0 c1 jv x c1',
   (forall f, parse_flt (fmt_flt f) = Some f) -> (forall f, Lex.tok_ok (fmt_flt f)) ->
@@ -110,7 +122,7 @@ Example C16_premises_hold :
   let s := full_schema (c_user C02.ex_case) in
   match save_json std_lex s MFull (c_cas C02.ex_case) with
   | Ok (j, c') =>
-      wf_convb s c' = true /\ XmiRt.wf_rtb s c' = true /\ 0 < c_next_id (c_cas C02.ex_case) /\
+      wf_convb s c' = true /\ XmiRtTotal.wf_rt_totalb s c' = true /\ 0 < c_next_id (c_cas C02.ex_case) /\
       doc_ok_json std_lex s j = true /\ initial_view_in c' = true /\
       load_json std_lex s j = canon_json s c' /\
       match canon_json s c', Xmi.canon_xmi s c' with Ok _, Ok x => (2 <= List.length (cc_fs x))%nat | _, _ => False end
@@ -122,7 +134,7 @@ Proof. vm_compute. repeat split; try reflexivity; repeat constructor. Qed.
    wf_convb and wf_rtb; its JSON view lists 7 structures, its XMI view 5 *)
 Example C16_premises_hold_inline :
   let s := (XmiExample.ex_schema ++ [mkTi "uima.cas.NULL" ["uima.cas.NULL"; "uima.cas.TOP"] []])%list in
-  wf_convb s XmiExample.ex_cas = true /\ XmiRt.wf_rtb s XmiExample.ex_cas = true /\
+  wf_convb s XmiExample.ex_cas = true /\ XmiRtTotal.wf_rt_totalb s XmiExample.ex_cas = true /\
   match canon_json s XmiExample.ex_cas, Xmi.canon_xmi s XmiExample.ex_cas with
   | Ok j, Ok x => List.length (cc_fs j) = 7%nat /\ List.length (cc_fs x) = 5%nat
   | _, _ => False
